@@ -1,4 +1,5 @@
 import RpycModel.Files.Lemmas
+import RpycModel.Gen.Files
 /-
 C20 — uploading a file or directory tree to the peer, and downloading one from it, reproduces every file
 byte for byte under the same relative names — for every file size relative to the chunk size, any chunk
@@ -69,6 +70,22 @@ theorem invalid_top_level (chunk : Nat) (f : Filter) :
 theorem top_level_not_filtered (chunk : Nat) (hc : 1 ≤ chunk) (f : Filter) (ii : Bool) (b : Bytes) :
     upload chunk f ii (.file b) = .ok (some (.file b)) := by
   rw [transfer_eq_prune chunk hc]; rfl
+
+/-- the default chunk size of every transfer function, as found in the source, is ≥ 1: transfers that do
+not pass `chunk_size` are covered by the theorems above (regenerated from /repo on every run) -/
+theorem default_chunk_sizes_copy_exactly :
+    ∀ p ∈ Gen.Files.defaultChunks, ∀ src : Bytes, copyFile p.2 src = src := by
+  intro p hp src
+  have h : Gen.Files.defaultChunks.all (fun p => decide (1 ≤ p.2)) = true := by decide
+  rw [List.all_eq_true] at h
+  exact copyLoop_id p.2 (by simpa using h p hp) src
+
+/-- all six transfer functions are the ones modelled, and `upload`/`download` default to no filter and
+`ignore_invalid = False` -/
+theorem transfer_functions_are_modelled :
+    Gen.Files.defaultChunks.map Prod.fst
+        = ["upload", "upload_file", "upload_dir", "download", "download_file", "download_dir"]
+      ∧ Gen.Files.plainDefaults = ["upload", "download"] := by decide
 
 /-! ### non-vacuity -/
 
